@@ -1,1 +1,697 @@
-"""placeholder"""
+"""Keys, tables, codec agreement: R-KEYS, R-ELEMTABLE, R-CODEC, R-ATTRREAD."""
+from __future__ import annotations
+
+import ast
+from typing import Optional
+
+from ..gram import Det, NFA, build, compare, grammars, literals_of
+from ..model import AnalysisError, FuncInfo, NotConst, norm, short
+from ..report import Finding, RuleResult
+from . import rule
+from .common import (assigned_names, closure, entry, ext_calls, kwarg, names_in, own_walk, params_of, single_def, sites,
+                     try_const)
+from .spec import IUPAC_SYMBOLS
+
+SER = "tucan/serialization.py"
+PAR = "tucan/parser/parser.py"
+GU = "tucan/graph_utils.py"
+
+# what the properties (C01, C06, C13) say identifies an atom
+IDENTITY_KEYS = ("atomic_number", "mass", "rad")
+
+
+def keyset(ctx, fi: FuncInfo, e: ast.expr, within: Optional[set[str]] = None, depth=0) -> Optional[set]:
+    """finite set of constant values an expression can take: constant, parameter with constant call
+    sites, loop / comprehension variable over a constant container, attribute of such (icd.key)"""
+    if depth > 6:
+        return None
+    v = try_const(ctx, fi, e, default=_NO)
+    if v is not _NO:
+        try:
+            hash(v)
+            return {v}
+        except TypeError:
+            return None
+    if isinstance(e, ast.Name):
+        if e.id in params_of(fi.node):
+            return ctx.cg.param_values(fi, e.id, within)
+        # loop variable over a constant container
+        for n in own_walk(fi.node):
+            gens = []
+            if isinstance(n, ast.For):
+                gens = [(n.target, n.iter)]
+            elif isinstance(n, (ast.ListComp, ast.SetComp, ast.DictComp, ast.GeneratorExp)):
+                gens = [(g.target, g.iter) for g in n.generators]
+            for tg, it in gens:
+                if isinstance(tg, ast.Name) and tg.id == e.id:
+                    c = try_const(ctx, fi, it, default=_NO)
+                    if c is not _NO:
+                        try:
+                            return set(c)
+                        except TypeError:
+                            return None
+                    ks = keyset(ctx, fi, it, within, depth + 1)
+                    return None
+        d = single_def(fi.node, e.id)
+        if d is not None:
+            return keyset(ctx, fi, d, within, depth + 1)
+    return None
+
+
+_NO = object()
+
+
+def invariant_definitions(ctx) -> tuple[FuncInfo, list[tuple[str, object]], ast.AST]:
+    """[(key, default)] of the invariant code, resolved from graph_from_molecule"""
+    fi = ctx.repo.func("tucan.graph_utils.graph_from_molecule")
+    # find the call that computes the invariant code and the list passed to it
+    target = None
+    for cs in sites(ctx, fi):
+        if cs.kind == "tucan" and "invariant" in cs.target.name:
+            target = cs
+    if target is None:
+        raise AnalysisError("graph_from_molecule no longer calls the invariant-code helper (anchor vanished)")
+    if len(target.node.args) < 2:
+        raise AnalysisError("invariant-code helper call has no definitions argument")
+    lst = target.node.args[1]
+    if isinstance(lst, ast.Name):
+        lst = single_def(fi.node, lst.id)
+    if not isinstance(lst, (ast.List, ast.Tuple)):
+        raise AnalysisError("invariant-code definitions are not a literal list")
+    defs = []
+    for el in lst.elts:
+        if not (isinstance(el, ast.Call) and el.args):
+            raise AnalysisError(f"invariant-code definition `{short(el)}` not understood")
+        r = ctx.repo.resolve_dotted(fi.module, el.func)
+        if not (r and r[0] == "class"):
+            raise AnalysisError(f"invariant-code definition `{short(el)}` is not a definition record")
+        key = try_const(ctx, fi, el.args[0], default=_NO)
+        if key is _NO:
+            raise AnalysisError(f"invariant-code key `{short(el.args[0])}` is not a constant")
+        default = None
+        darg = el.args[1] if len(el.args) > 1 else kwarg(el, "default_value")
+        if darg is not None:
+            default = try_const(ctx, fi, darg, default=_NO)
+            if default is _NO:
+                raise AnalysisError("invariant-code default is not a constant")
+        defs.append((key, default))
+    return fi, defs, lst
+
+
+@rule("R-KEYS")
+def r_keys(ctx) -> RuleResult:
+    res = RuleResult("R-KEYS", "invariant code = (atomic_number, mass default 0, rad default 0); serializer writes exactly {mass, rad}; parser's key table is its inverse; grammar's node_property_key literals are its values; colouring starts from the invariant code")
+    repo = ctx.repo
+    fi, defs, node = invariant_definitions(ctx)
+    keys = [k for k, _ in defs]
+    ok = sorted(keys) == sorted(IDENTITY_KEYS) and len(keys) == len(set(keys))
+    res.inst(fi.fq, f"invariant code keys {keys}", "ok" if ok else "fail")
+    if not ok:
+        extra = sorted(set(keys) - set(IDENTITY_KEYS))
+        missing = sorted(set(IDENTITY_KEYS) - set(keys))
+        msg = "invariant code is not exactly (element, isotope mass, radical)"
+        if extra:
+            msg += f": extra {extra} makes non-identity data influence the colouring"
+        if missing:
+            msg += f": missing {missing} lets atoms that differ in it share a colour"
+        res.fail(Finding("R-KEYS", fi.module.rel, fi.qualname, norm(node), msg, line=node.lineno))
+    for k, d in defs:
+        if k == "atomic_number":
+            good = d is None
+            why = "atomic number must be required (no default)"
+        else:
+            good = d == 0 and d is not None and not isinstance(d, bool)
+            why = f"default of {k} must be 0 (absent = explicit default), found {d!r}"
+        res.inst(fi.fq, f"default of {k} = {d!r}", "ok" if good else "fail")
+        if not good:
+            res.fail(Finding("R-KEYS", fi.module.rel, fi.qualname, f"InvariantCodeDefinition({k})", why, line=node.lineno))
+    # the helper really builds the tuple from these definitions and stores it under INVARIANT_CODE
+    _check_invariant_helper(ctx, res)
+    # serializer map
+    ser = repo.module("tucan.serialization")
+    smap = repo.try_const(ser, "_SERIALIZER_NODE_ATTRIBUTE_MAPPING", _NO)
+    if smap is _NO or not isinstance(smap, dict):
+        raise AnalysisError("_SERIALIZER_NODE_ATTRIBUTE_MAPPING is no longer a constant dict (anchor vanished)")
+    want = set(IDENTITY_KEYS) - {"atomic_number"}
+    ok = set(smap) == want
+    res.inst("tucan.serialization", f"serializer attribute map keys {sorted(smap)}", "ok" if ok else "fail")
+    if not ok:
+        res.fail(Finding("R-KEYS", SER, "_SERIALIZER_NODE_ATTRIBUTE_MAPPING", "keys " + str(sorted(smap)),
+                         f"serializer writes attributes {sorted(smap)}; the identity attributes besides the element are {sorted(want)}",
+                         line=ser.assign_nodes["_SERIALIZER_NODE_ATTRIBUTE_MAPPING"].lineno))
+    inj = len(set(smap.values())) == len(smap)
+    res.inst("tucan.serialization", "serializer attribute map is injective", "ok" if inj else "fail")
+    if not inj:
+        res.fail(Finding("R-KEYS", SER, "_SERIALIZER_NODE_ATTRIBUTE_MAPPING", str(smap), "two attributes share one spelling: the string cannot be decoded"))
+    # parser map = inverse
+    par = repo.module("tucan.parser.parser")
+    dmap = repo.try_const(par, "_DESERIALIZER_NODE_ATTRIBUTE_MAPPING", _NO)
+    if dmap is _NO:
+        raise AnalysisError("_DESERIALIZER_NODE_ATTRIBUTE_MAPPING is no longer a constant (anchor vanished)")
+    inv = {v: k for k, v in smap.items()}
+    ok = dmap == inv
+    res.inst("tucan.parser.parser", f"parser key table {dmap} = inverse of serializer's", "ok" if ok else "fail")
+    if not ok:
+        res.fail(Finding("R-KEYS", PAR, "_DESERIALIZER_NODE_ATTRIBUTE_MAPPING", str(dmap), f"parser's key table is not the inverse of the serializer's ({inv})",
+                         line=par.assign_nodes["_DESERIALIZER_NODE_ATTRIBUTE_MAPPING"].lineno))
+    # grammar literals
+    G = grammars(ctx)
+    for nm, rules, f in (("ebnf", G.ebnf, "tucan/parser/tucan.ebnf"), ("g4", G.g4, "tucan/parser/tucan.g4")):
+        if "node_property_key" not in rules:
+            raise AnalysisError(f"rule node_property_key vanished from {f}")
+        lits = literals_of(rules, "node_property_key")
+        ok = lits == set(smap.values())
+        res.inst(f, f"node_property_key literals {sorted(lits)}", "ok" if ok else "fail")
+        if not ok:
+            res.fail(Finding("R-KEYS", f, "node_property_key", str(sorted(lits)), f"grammar's attribute keys differ from what the serializer writes ({sorted(smap.values())})"))
+    # colouring starts from the invariant code
+    inv_key = repo.const("tucan.graph_attributes", "INVARIANT_CODE")
+    part_key = repo.const("tucan.graph_attributes", "PARTITION")
+    can = entry(ctx, "canonicalize")
+    from .structural import _step_function
+    step = _step_function(ctx)
+    used = set()
+    first = None
+    for cs in sites(ctx, can):
+        if cs.kind == "tucan" and cs.target.fq == step.fq:
+            a = cs.node.args[1] if len(cs.node.args) > 1 else kwarg(cs.node, "attribute")
+            v = try_const(ctx, can, a, default=_NO) if a is not None else _NO
+            used.add(v)
+            first = cs
+    ok = used == {inv_key}
+    res.inst(can.fq, f"initial colouring attribute {sorted(map(str, used))}", "ok" if ok else "fail")
+    if not ok:
+        n = first.node if first else can.node
+        res.fail(Finding("R-KEYS", can.module.rel, can.qualname, norm(n), f"initial colouring does not start from the invariant code ({inv_key})", line=n.lineno))
+    # the record written under INVARIANT_CODE is only ever produced by the helper
+    return res
+
+
+def _check_invariant_helper(ctx, res: RuleResult):
+    repo = ctx.repo
+    inv_key = repo.const("tucan.graph_attributes", "INVARIANT_CODE")
+    fi = None
+    for f in closure(ctx, "read_text"):
+        if "invariant" in f.name and f.name != "graph_from_molecule":
+            fi = f
+    if fi is None:
+        raise AnalysisError("invariant-code helper vanished")
+    fn = fi.node
+    params = params_of(fn)
+    if len(params) < 2:
+        raise AnalysisError("invariant-code helper signature changed")
+    atoms, defsp = params[0], params[1]
+    # store site:  <attrs>.update({INVARIANT_CODE: X}) / <attrs>[INVARIANT_CODE] = X
+    stores = []
+    for n in own_walk(fn):
+        if isinstance(n, ast.Call) and isinstance(n.func, ast.Attribute) and n.func.attr == "update" and n.args and isinstance(n.args[0], ast.Dict):
+            for k, v in zip(n.args[0].keys, n.args[0].values):
+                if k is not None and try_const(ctx, fi, k) == inv_key:
+                    stores.append((n, v))
+        if isinstance(n, ast.Assign) and isinstance(n.targets[0], ast.Subscript) and try_const(ctx, fi, n.targets[0].slice) == inv_key:
+            stores.append((n, n.value))
+    if len(stores) != 1:
+        raise AnalysisError(f"invariant-code helper: expected one store under {inv_key!r}, found {len(stores)}")
+    st, val = stores[0]
+    if isinstance(val, ast.Name):
+        val = single_def(fn, val.id) or val
+    if isinstance(val, ast.Call) and isinstance(val.func, ast.Name) and val.func.id == "tuple" and val.args:
+        val = val.args[0]
+    ok = False
+    why = "value is not a comprehension over the definitions"
+    if isinstance(val, (ast.GeneratorExp, ast.ListComp)) and len(val.generators) == 1 and not val.generators[0].ifs \
+            and norm(val.generators[0].iter) == defsp and isinstance(val.generators[0].target, ast.Name):
+        icd = val.generators[0].target.id
+        elt = val.elt
+        # attrs[icd.key] if default is None else attrs.get(icd.key, default)
+        reads = [n for n in ast.walk(elt) if (isinstance(n, ast.Subscript) and norm(n.slice) == f"{icd}.key") or
+                 (isinstance(n, ast.Call) and isinstance(n.func, ast.Attribute) and n.func.attr == "get" and n.args and norm(n.args[0]) == f"{icd}.key")]
+        others = [n for n in ast.walk(elt) if isinstance(n, ast.Subscript) and norm(n.slice) != f"{icd}.key"]
+        if reads and not others:
+            ok = True
+            why = f"tuple of attrs[{icd}.key] / attrs.get({icd}.key, default) over the definitions, in order"
+    res.inst(fi.fq, short(st), "ok" if ok else "fail", detail=why)
+    if not ok:
+        res.fail(Finding("R-KEYS", fi.module.rel, fi.qualname, norm(st), f"invariant code is not built from exactly the defined keys ({why})", line=st.lineno))
+
+
+# --------------------------------------------------------------------------- R-ELEMTABLE
+
+
+@rule("R-ELEMTABLE")
+def r_elemtable(ctx) -> RuleResult:
+    res = RuleResult("R-ELEMTABLE", "element table = IUPAC H..Og with atomic number = position; grammar's formula language = Hill order over exactly these symbols")
+    repo = ctx.repo
+    ea = repo.module("tucan.element_attributes")
+    syms = repo.try_const(ea, "element_symbols", _NO)
+    attrs = repo.try_const(ea, "ELEMENT_ATTRS", _NO)
+    if attrs is _NO or not isinstance(attrs, dict):
+        raise AnalysisError("ELEMENT_ATTRS is no longer a constant table (anchor vanished)")
+    an = repo.const("tucan.graph_attributes", "ATOMIC_NUMBER")
+    F = "tucan/element_attributes.py"
+    table = {}
+    for s, d in attrs.items():
+        if not isinstance(d, dict) or an not in d:
+            res.fail(Finding("R-ELEMTABLE", F, "ELEMENT_ATTRS", f"entry {s!r}", "entry has no atomic number"))
+            continue
+        table[s] = d[an]
+    want = {s: i + 1 for i, s in enumerate(IUPAC_SYMBOLS)}
+    bad = sorted(set(table.items()) ^ set(want.items()))
+    res.inst("tucan.element_attributes", f"ELEMENT_ATTRS: {len(table)} symbols ↦ atomic numbers", "ok" if not bad else "fail")
+    if bad:
+        res.fail(Finding("R-ELEMTABLE", F, "ELEMENT_ATTRS", f"symbol/number pairs {bad[:6]}",
+                         f"element table differs from the periodic table at {bad[:6]}",
+                         line=ea.assign_nodes.get("element_symbols", ea.assign_nodes["ELEMENT_ATTRS"]).lineno))
+    inj = len(set(table.values())) == len(table)
+    res.inst("tucan.element_attributes", "symbol ↔ atomic number is a bijection", "ok" if inj else "fail")
+    if not inj:
+        res.fail(Finding("R-ELEMTABLE", F, "ELEMENT_ATTRS", "atomic numbers", "two symbols share an atomic number"))
+    # grammar: L(sum_formula) == Hill language over the table's symbols
+    G = grammars(ctx)
+    symbols = sorted(table)
+    cnt = ("opt", ("toks", [str(d) for d in range(2, 10)] + ["GREATER_THAN_NINE"]))
+
+    def el(s):
+        return ("cat", [("tok", s), cnt])
+    rest_c = [s for s in symbols if s not in ("C", "H")]
+    rest_nc = [s for s in symbols if s != "C"]
+    hill = ("alt", [
+        ("cat", [el("C"), ("opt", el("H"))] + [("opt", el(s)) for s in rest_c]),
+        ("cat", [("opt", el(s)) for s in rest_nc]),
+    ])
+    n = NFA()
+    a, b = build(n, hill)
+    ref = Det(n, a, b)
+    for nm, f in (("ebnf", "tucan/parser/tucan.ebnf"), ("g4", "tucan/parser/tucan.g4")):
+        rules = G.ebnf if nm == "ebnf" else G.g4
+        if "sum_formula" not in rules:
+            raise AnalysisError(f"rule sum_formula vanished from {f}")
+        ok, wit, states, side = compare(G.det(nm, "sum_formula"), ref)
+        res.inst(f, "L(sum_formula) == Hill-order language over the element table", "ok" if ok else "fail", detail=f"{states} product states")
+        if not ok:
+            w = " ".join(wit) if wit else "<empty>"
+            res.fail(Finding("R-ELEMTABLE", f, "sum_formula", "L(sum_formula)",
+                             f"formula `{w}` is {'accepted by the grammar but is not' if side == 'left' else 'rejected by the grammar although it is'} a Hill-order formula over the element table"))
+    res.trusted = ["frozen IUPAC symbol sequence H..Og (tsa/rules/spec.py)", "Python's sorted() order of the symbols = alphabetical order (ASCII, upper case first letter)"]
+    return res
+
+
+# --------------------------------------------------------------------------- R-CODEC
+
+
+class Offset:
+    """abstract value 'node index from the string + k' / 'graph label + k'"""
+
+    def __init__(self, k: int, src: ast.AST):
+        self.k, self.src = k, src
+
+
+def _offset_eval(e: ast.expr, env: dict) -> Optional[Offset]:
+    if isinstance(e, ast.Name):
+        return env.get(e.id)
+    if isinstance(e, ast.BinOp) and isinstance(e.op, (ast.Add, ast.Sub)):
+        l = _offset_eval(e.left, env)
+        r = _offset_eval(e.right, env)
+        if l is not None and isinstance(e.right, ast.Constant) and isinstance(e.right.value, int):
+            return Offset(l.k + (e.right.value if isinstance(e.op, ast.Add) else -e.right.value), l.src)
+        if r is not None and isinstance(e.left, ast.Constant) and isinstance(e.left.value, int) and isinstance(e.op, ast.Add):
+            return Offset(r.k + e.left.value, r.src)
+    if isinstance(e, ast.Call) and isinstance(e.func, ast.Name) and e.func.id == "int" and e.args:
+        inner = e.args[0]
+        if "node_index" in norm(inner) and "getText" in norm(inner):
+            return Offset(0, e)
+        return _offset_eval(inner, env)
+    return None
+
+
+@rule("R-CODEC")
+def r_codec(ctx) -> RuleResult:
+    res = RuleResult("R-CODEC", "serializer and parser agree: emitted index = label+1, parsed label = index-1; final numbering sorted by atomic number first, parser stable-sorts atoms by atomic number; nothing is filtered out of the string")
+    repo = ctx.repo
+    an = repo.const("tucan.graph_attributes", "ATOMIC_NUMBER")
+    # ---- parser: index - 1
+    lis = None
+    par = repo.module("tucan.parser.parser")
+    for ci in par.classes.values():
+        if any(b.endswith("tucanListener") for b in repo.base_names(ci)):
+            lis = ci
+    if lis is None:
+        raise AnalysisError("listener implementation vanished")
+    n_par = 0
+
+    def run_method(mfi: FuncInfo, env: dict, depth=0):
+        nonlocal n_par
+        if depth > 4:
+            return
+        for n in own_walk(mfi.node):
+            if isinstance(n, ast.Assign) and len(n.targets) == 1 and isinstance(n.targets[0], ast.Name):
+                v = _offset_eval(n.value, env)
+                if v is not None:
+                    env[n.targets[0].id] = v
+        for n in own_walk(mfi.node):
+            if not isinstance(n, ast.Call):
+                continue
+            if isinstance(n.func, ast.Attribute) and isinstance(n.func.value, ast.Name) and n.func.value.id == "self":
+                tgt = repo.mro_method(lis, n.func.attr)
+                if tgt is not None:
+                    tp = params_of(tgt.node)[1:]
+                    env2 = {}
+                    for p, a in zip(tp, n.args):
+                        v = _offset_eval(a, env)
+                        if v is not None:
+                            env2[p] = v
+                    if env2:
+                        run_method(tgt, env2, depth + 1)
+                    continue
+            # sinks: self._bonds.append((a, b)) ; self._node_attributes.setdefault(k, {}) / [k]
+            if isinstance(n.func, ast.Attribute) and n.func.attr in ("append", "add", "setdefault", "extend") and norm(n.func.value).startswith("self."):
+                args = n.args[0].elts if (n.args and isinstance(n.args[0], ast.Tuple)) else n.args[:1]
+                for a in args:
+                    v = _offset_eval(a, env)
+                    if v is not None:
+                        n_par += 1
+                        ok = v.k == -1
+                        res.inst(mfi.fq, short(n), "ok" if ok else "fail", detail=f"stored label = index{v.k:+d}")
+                        if not ok:
+                            res.fail(Finding("R-CODEC", mfi.module.rel, mfi.qualname, norm(n),
+                                             f"label stored as string index{v.k:+d}; the serializer writes label+1, so the parser must store index-1", line=n.lineno))
+        for n in own_walk(mfi.node):
+            if isinstance(n, ast.Assign) and isinstance(n.targets[0], ast.Subscript) and norm(n.targets[0].value).startswith("self."):
+                v = _offset_eval(n.targets[0].slice, env)
+                if v is not None:
+                    n_par += 1
+                    ok = v.k == -1
+                    res.inst(mfi.fq, short(n), "ok" if ok else "fail", detail=f"stored label = index{v.k:+d}")
+                    if not ok:
+                        res.fail(Finding("R-CODEC", mfi.module.rel, mfi.qualname, norm(n), f"label stored as string index{v.k:+d}", line=n.lineno))
+    for name, mfi in lis.methods.items():
+        if name.startswith(("enter", "exit")):
+            run_method(mfi, {})
+    if n_par < 3:
+        raise AnalysisError(f"R-CODEC: found only {n_par} parsed-index store sites in the listener (expected bond endpoints and attribute index)")
+    # ---- parser: stable sort by atomic number, index = position
+    tg = repo.mro_method(lis, "to_graph")
+    if tg is None:
+        raise AnalysisError("listener.to_graph vanished")
+    sorts = [n for n in own_walk(tg.node) if isinstance(n, ast.Call) and isinstance(n.func, ast.Name) and n.func.id == "sorted"]
+    sort_methods = [n for n in own_walk(tg.node) if isinstance(n, ast.Call) and isinstance(n.func, ast.Attribute) and n.func.attr == "sort"]
+    ok = False
+    why = "no sort of the atoms by atomic number"
+    node = tg.node
+    for s in sorts + sort_methods:
+        key = kwarg(s, "key")
+        rev = kwarg(s, "reverse")
+        node = s
+        if rev is not None and not (isinstance(rev, ast.Constant) and rev.value in (False, None)):
+            why = "atoms sorted in reverse"
+            continue
+        if isinstance(key, ast.Lambda) and isinstance(key.body, ast.Subscript) and isinstance(key.body.value, ast.Name) \
+                and key.body.value.id == key.args.args[0].arg and try_const(ctx, tg, key.body.slice) == an:
+            ok, why = True, "stable sort on atomic number only"
+            break
+        why = f"sort key `{short(key) if key is not None else None}` is not the atomic number alone (ties must keep formula order)"
+    res.inst(tg.fq, short(node), "ok" if ok else "fail", detail=why)
+    if not ok:
+        res.fail(Finding("R-CODEC", tg.module.rel, tg.qualname, norm(node), f"parser numbers atoms differently from the serializer: {why}", line=getattr(node, "lineno", None)))
+    # ---- serializer: writers receive the graph numbered by sort_molecule_by_attribute(.., ATOMIC_NUMBER)
+    ser = entry(ctx, "serialize")
+    sortf = ctx.repo.find_func("tucan.graph_utils.sort_molecule_by_attribute")
+    writer_calls = [cs for cs in sites(ctx, ser) if cs.kind == "tucan" and cs.target.name.startswith("_write")]
+    if not writer_calls:
+        raise AnalysisError("serialize_molecule calls no _write_* helper (anchor vanished)")
+    for cs in writer_calls:
+        arg = cs.node.args[0] if cs.node.args else None
+        src = single_def(ser.node, arg.id) if isinstance(arg, ast.Name) else arg
+        good = False
+        why = "graph passed to the writer is not the one numbered by atomic number"
+        if isinstance(src, ast.Call):
+            c2 = ctx.cg.resolve_call(ser, src, ctx.cg.local_types(ser), set(params_of(ser.node)))
+            if c2.kind == "tucan" and sortf is not None and c2.target.fq == sortf.fq:
+                a = src.args[1] if len(src.args) > 1 else kwarg(src, "attribute")
+                if a is not None and try_const(ctx, ser, a) == an:
+                    good, why = True, "numbered by sort on (atomic number, ...)"
+                else:
+                    why = f"final numbering sorts by `{short(a) if a is not None else '?'}`, not by atomic number"
+        res.inst(ser.fq, short(cs.node), "ok" if good else "fail", detail=why)
+        if not good:
+            res.fail(Finding("R-CODEC", ser.module.rel, ser.qualname, norm(cs.node), why + ": the formula no longer identifies each index's element", line=cs.node.lineno))
+    # sort_molecule_by_attribute: sorted((key(atom), atom)) -> dict(zip(labels, range(n)))
+    if sortf is not None:
+        _check_sort_relabel(ctx, sortf, res)
+    # ---- serializer: label + 1 at every emitted index; no filtering
+    _check_emitters(ctx, res)
+    res.trusted = ["Python's sorted() is stable"]
+    return res
+
+
+def _check_sort_relabel(ctx, fi: FuncInfo, res: RuleResult):
+    fn = fi.node
+    rel = [cs for cs in sites(ctx, fi) if cs.kind == "ext" and cs.target == "networkx.relabel_nodes"]
+    if len(rel) != 1:
+        raise AnalysisError("sort_molecule_by_attribute: expected one relabel_nodes call")
+    srt = [n for n in own_walk(fn) if isinstance(n, ast.Call) and isinstance(n.func, ast.Name) and n.func.id == "sorted"]
+    ok = False
+    why = "no sorted(...) of (key, atom) pairs"
+    for s in srt:
+        if kwarg(s, "key") is not None or kwarg(s, "reverse") is not None:
+            why = "sorted with key/reverse: order of equal keys or direction changes"
+            continue
+        inner = s.args[0]
+        if isinstance(inner, ast.Name):
+            inner = single_def(fn, inner.id) or inner
+        if isinstance(inner, (ast.ListComp, ast.GeneratorExp)) and isinstance(inner.elt, ast.Tuple) and len(inner.elt.elts) == 2:
+            keyexpr, atom = inner.elt.elts
+            gen = inner.generators[0]
+            if isinstance(gen.target, ast.Name) and norm(atom) == gen.target.id and not gen.ifs and isinstance(keyexpr, ast.Call):
+                cs = ctx.cg.resolve_call(fi, keyexpr, ctx.cg.local_types(fi), set(params_of(fn)))
+                if cs.kind == "tucan":
+                    ok, why = True, f"sorted (key({gen.target.id}), {gen.target.id}) pairs, key = {cs.target.name}"
+    res.inst(fi.fq, "numbering = rank in sorted((attribute key, label))", "ok" if ok else "fail", detail=why)
+    if not ok:
+        res.fail(Finding("R-CODEC", fi.module.rel, fi.qualname, norm(rel[0].node), f"final numbering is not the sorted order of (attribute key, label): {why}", line=rel[0].node.lineno))
+
+
+def _check_emitters(ctx, res: RuleResult):
+    """in the string-writing functions of the serializer: every formatted node label is `label + 1`;
+    iterations over edges / nodes are unfiltered (except: attribute present, no attribute at all)"""
+    writers = [f for f in closure(ctx, "serialize") if f.name.startswith("_write")]
+    n_emit = 0
+    for fi in writers:
+        fn = fi.node
+        label_vars = {}      # name -> 'edge' (pair of labels) | 'label'
+        for n in own_walk(fn):
+            gens = []
+            if isinstance(n, ast.For):
+                gens = [(n.target, n.iter, n)]
+            elif isinstance(n, (ast.ListComp, ast.GeneratorExp, ast.SetComp, ast.DictComp)):
+                gens = [(g.target, g.iter, n) for g in n.generators]
+            for tg, it, owner in gens:
+                src = _iter_source(fi, it)
+                if src is None:
+                    continue
+                kind = src
+                if kind == "edges":
+                    if isinstance(tg, ast.Name):
+                        label_vars[tg.id] = "edge"
+                    elif isinstance(tg, ast.Tuple):
+                        for e in tg.elts[:2]:
+                            if isinstance(e, ast.Name):
+                                label_vars[e.id] = "label"
+                elif kind in ("nodes_data", "nodes"):
+                    if isinstance(tg, ast.Tuple) and isinstance(tg.elts[0], ast.Name):
+                        label_vars[tg.elts[0].id] = "label"
+                    elif isinstance(tg, ast.Name) and kind == "nodes":
+                        label_vars[tg.id] = "label"
+                # filtering
+                filt = []
+                if isinstance(owner, ast.For):
+                    for x in own_walk(owner):
+                        if isinstance(x, (ast.Continue, ast.Break)):
+                            filt.append(x)
+                else:
+                    for g in owner.generators:
+                        if g.iter is it:
+                            filt += g.ifs
+                for f in filt:
+                    okf = _accepted_filter(fi, f, owner)
+                    res.inst(fi.fq, f"iteration over {kind}: filter `{short(f)}`", "ok" if okf else "fail")
+                    if not okf:
+                        res.fail(Finding("R-CODEC", fi.module.rel, fi.qualname, norm(f if not isinstance(f, (ast.Continue, ast.Break)) else _guard_of(owner, f) or f),
+                                         f"part of the molecule is filtered out of the string (iteration over {kind})", line=getattr(f, "lineno", None)))
+        for n in own_walk(fn):
+            if isinstance(n, ast.FormattedValue):
+                e = n.value
+                base = e
+                k = 0
+                if isinstance(e, ast.BinOp) and isinstance(e.op, (ast.Add, ast.Sub)) and isinstance(e.right, ast.Constant) and isinstance(e.right.value, int):
+                    base = e.left
+                    k = e.right.value if isinstance(e.op, ast.Add) else -e.right.value
+                is_label = (isinstance(base, ast.Name) and label_vars.get(base.id) == "label") or \
+                           (isinstance(base, ast.Subscript) and isinstance(base.value, ast.Name) and label_vars.get(base.value.id) == "edge")
+                if is_label:
+                    n_emit += 1
+                    ok = k == 1
+                    res.inst(fi.fq, f"emitted index `{short(e)}`", "ok" if ok else "fail")
+                    if not ok:
+                        res.fail(Finding("R-CODEC", fi.module.rel, fi.qualname, norm(e), f"emitted index is label{k:+d}; the parser subtracts 1", line=e.lineno))
+    if n_emit < 3:
+        raise AnalysisError(f"R-CODEC: found only {n_emit} emitted node indices in the serializer's writers (expected two bond endpoints and the attribute index)")
+    res.counts["emitted_index_sites"] = n_emit
+
+
+def _iter_source(fi: FuncInfo, it: ast.expr, depth=0) -> Optional[str]:
+    """'edges' | 'nodes_data' | 'nodes' when the iterable is (a sorted/list copy of, or a comprehension over) the graph's edges / nodes"""
+    if depth > 5:
+        return None
+    while isinstance(it, ast.Call) and isinstance(it.func, ast.Name) and it.func.id in ("sorted", "list", "tuple", "reversed", "set", "frozenset") and it.args:
+        it = it.args[0]
+    if isinstance(it, ast.Name):
+        d = single_def(fi.node, it.id)
+        return _iter_source(fi, d, depth + 1) if d is not None else None
+    if isinstance(it, (ast.ListComp, ast.GeneratorExp)) and len(it.generators) == 1:
+        inner = _iter_source(fi, it.generators[0].iter, depth + 1)
+        if inner == "edges":
+            return "edges"
+        return None
+    t = norm(it)
+    if isinstance(it, ast.Call) and isinstance(it.func, ast.Attribute):
+        if it.func.attr == "edges":
+            return "edges"
+        if it.func.attr == "nodes":
+            d = kwarg(it, "data") or (it.args[0] if it.args else None)
+            return "nodes_data" if d is not None else "nodes"
+    if isinstance(it, ast.Attribute) and it.attr == "edges":
+        return "edges"
+    if isinstance(it, ast.Attribute) and it.attr == "nodes":
+        return "nodes"
+    return None
+
+
+def _guard_of(loop: ast.AST, stmt: ast.AST) -> Optional[ast.AST]:
+    for n in ast.walk(loop):
+        if isinstance(n, ast.If) and any(s is stmt for s in n.body + n.orelse):
+            return n.test
+    return None
+
+
+def _accepted_filter(fi: FuncInfo, f: ast.AST, owner: ast.AST) -> bool:
+    """accepted: `continue` guarded by `not <list built with only a key-presence filter>`"""
+    if isinstance(f, ast.Break):
+        return False
+    if isinstance(f, ast.Continue):
+        g = _guard_of(owner, f)
+        if isinstance(g, ast.UnaryOp) and isinstance(g.op, ast.Not) and isinstance(g.operand, ast.Name):
+            d = None
+            for n in ast.walk(owner):
+                if isinstance(n, ast.Assign) and isinstance(n.targets[0], ast.Name) and n.targets[0].id == g.operand.id:
+                    d = n.value
+            if isinstance(d, ast.ListComp) and len(d.generators) == 1:
+                ifs = d.generators[0].ifs
+                return all(isinstance(c, ast.Compare) and len(c.ops) == 1 and isinstance(c.ops[0], ast.In) for c in ifs)
+        return False
+    # comprehension filter on an edge / node iteration
+    return False
+
+
+# --------------------------------------------------------------------------- R-ATTRREAD
+
+ALLOWED_PIPELINE_KEYS = {"invariant_code", "partition", "atomic_number", "element_symbol", "mass", "rad", "explored"}
+
+
+@rule("R-ATTRREAD")
+def r_attrread(ctx) -> RuleResult:
+    res = RuleResult("R-ATTRREAD", "attribute keys read in canonicalisation and serialisation ⊆ {invariant_code, partition, atomic_number, element_symbol, mass, rad, explored}; edge data is never read")
+    fis = closure(ctx, "canonicalize", "serialize")
+    within = {f.fq for f in fis}
+    n_reads = 0
+    for fi in fis:
+        fn = fi.node
+        attrdict_vars = set()     # variables bound to a node's whole attribute dict
+        for n in own_walk(fn):
+            gens = []
+            if isinstance(n, ast.For):
+                gens = [(n.target, n.iter)]
+            elif isinstance(n, (ast.ListComp, ast.GeneratorExp, ast.SetComp, ast.DictComp)):
+                gens = [(g.target, g.iter) for g in n.generators]
+            for tg, it in gens:
+                base = it
+                while isinstance(base, ast.Call) and isinstance(base.func, ast.Name) and base.func.id in ("sorted", "list", "tuple", "reversed") and base.args:
+                    base = base.args[0]
+                if isinstance(base, ast.Call) and isinstance(base.func, ast.Attribute) and base.func.attr in ("nodes", "data"):
+                    d = kwarg(base, "data") or (base.args[0] if base.args else None)
+                    if isinstance(d, ast.Constant) and d.value is True and isinstance(tg, ast.Tuple) and len(tg.elts) == 2 and isinstance(tg.elts[1], ast.Name):
+                        attrdict_vars.add(tg.elts[1].id)
+        reads: list[tuple[ast.AST, ast.expr, str]] = []
+        for n in own_walk(fn):
+            # m.nodes[x][K]   /  attrs[K]
+            if isinstance(n, ast.Subscript) and isinstance(n.ctx, ast.Load):
+                v = n.value
+                if isinstance(v, ast.Subscript) and isinstance(v.value, ast.Attribute) and v.value.attr in ("nodes", "_node"):
+                    reads.append((n, n.slice, "node"))
+                elif isinstance(v, ast.Name) and v.id in attrdict_vars:
+                    reads.append((n, n.slice, "node"))
+                elif isinstance(v, ast.Attribute) and v.attr == "vs":
+                    reads.append((n, n.slice, "vs"))
+                elif isinstance(v, ast.Subscript) and isinstance(v.value, ast.Attribute) and v.value.attr in ("edges", "adj", "_adj"):
+                    reads.append((n, n.slice, "edge"))
+                elif isinstance(v, ast.Subscript) and isinstance(v.value, ast.Subscript) and isinstance(v.value.value, ast.Name) and _is_graph_param(fi, v.value.value.id):
+                    reads.append((n, n.slice, "edge"))        # m[u][v][K]
+            if isinstance(n, ast.Compare) and len(n.ops) == 1 and isinstance(n.ops[0], (ast.In, ast.NotIn)) and \
+                    isinstance(n.comparators[0], ast.Name) and n.comparators[0].id in attrdict_vars:
+                reads.append((n, n.left, "node"))
+            if isinstance(n, ast.Call):
+                f = n.func
+                if isinstance(f, ast.Attribute) and f.attr == "get" and n.args:
+                    v = f.value
+                    if (isinstance(v, ast.Name) and v.id in attrdict_vars) or (isinstance(v, ast.Subscript) and isinstance(v.value, ast.Attribute) and v.value.attr == "nodes"):
+                        reads.append((n, n.args[0], "node"))
+                if isinstance(f, ast.Attribute) and f.attr == "nodes":
+                    d = kwarg(n, "data") or (n.args[0] if n.args else None)
+                    if d is not None and not (isinstance(d, ast.Constant) and isinstance(d.value, bool)):
+                        reads.append((n, d, "node"))
+                if isinstance(f, ast.Attribute) and f.attr == "data" and isinstance(f.value, ast.Attribute) and f.value.attr in ("nodes", "edges"):
+                    d = n.args[0] if n.args else kwarg(n, "data")
+                    kind = "node" if f.value.attr == "nodes" else "edge"
+                    if d is not None and not (isinstance(d, ast.Constant) and isinstance(d.value, bool)):
+                        reads.append((n, d, kind))
+                    elif kind == "edge" and (d is None or (isinstance(d, ast.Constant) and d.value is True)):
+                        reads.append((n, ast.Constant("<all edge data>"), "edge"))
+                if isinstance(f, ast.Attribute) and f.attr == "edges":
+                    d = kwarg(n, "data") or (n.args[0] if n.args else None)
+                    if d is not None and not (isinstance(d, ast.Constant) and d.value is False):
+                        reads.append((n, d if not isinstance(d, ast.Constant) or not isinstance(d.value, bool) else ast.Constant("<all edge data>"), "edge"))
+                if isinstance(f, ast.Attribute) and f.attr == "get_edge_data":
+                    reads.append((n, ast.Constant("<all edge data>"), "edge"))
+                r = ctx.repo.resolve_dotted(fi.module, f)
+                if r and r[0] == "ext" and r[1] == "networkx.get_node_attributes" and len(n.args) >= 2:
+                    reads.append((n, n.args[1], "node"))
+                if r and r[0] == "ext" and r[1] == "networkx.get_edge_attributes":
+                    reads.append((n, n.args[1] if len(n.args) > 1 else ast.Constant("?"), "edge"))
+        for node, kexpr, kind in reads:
+            n_reads += 1
+            if kind == "edge":
+                res.inst(fi.fq, short(node), "fail")
+                res.fail(Finding("R-ATTRREAD", fi.module.rel, fi.qualname, norm(node), "bond data is read inside the identifier pipeline: bond types would influence the string", line=node.lineno))
+                continue
+            ks = keyset(ctx, fi, kexpr, within)
+            if ks is None:
+                raise AnalysisError(f"R-ATTRREAD: attribute key `{short(kexpr)}` at {fi.loc(node)} does not resolve to constants")
+            if kind == "vs":
+                ks = ks - {"_nx_name"}
+            bad = sorted(k for k in ks if k not in ALLOWED_PIPELINE_KEYS)
+            res.inst(fi.fq, short(node), "ok" if not bad else "fail", detail=f"keys {sorted(map(str, ks))}")
+            if bad:
+                res.fail(Finding("R-ATTRREAD", fi.module.rel, fi.qualname, norm(node),
+                                 f"pipeline reads attribute {bad}: data that is not element / isotope / radical / connectivity influences the result", line=node.lineno))
+    if n_reads < 8:
+        raise AnalysisError(f"R-ATTRREAD: only {n_reads} attribute reads recognised in the pipeline closures; the access idioms changed")
+    res.counts = {"key_resolved_reads": n_reads, "functions": len(fis)}
+    res.notes.append("whole attribute dictionaries escape only into relabel_nodes / copy / from_networkx / sorted((label, dict)) — summaries that do not inspect them")
+    return res
+
+
+def _is_graph_param(fi: FuncInfo, name: str) -> bool:
+    for a in fi.node.args.args:
+        if a.arg == name and a.annotation is not None and "Graph" in norm(a.annotation):
+            return True
+    return False
